@@ -24,26 +24,30 @@ class SeismicZfpBackendArray(BackendArray):
         )
 
     def _raw_indexing_method(self, key: tuple) -> np.typing.ArrayLike:
+        # BASIC indexing support: each element of key is an integer (that dimension is dropped)
+        # or a slice with a positive step (xarray itself decomposes negative steps).
+        bounds, post_index = [], []
+        for k, length in zip(key, self.shape):
+            if isinstance(k, slice):
+                start, stop, step = k.indices(length)
+                bounds.append((start, stop))
+                post_index.append(slice(None, None, step))
+            else:
+                k = int(k) + length if k < 0 else int(k)
+                bounds.append((k, k + 1))
+                post_index.append(0)
 
-        min_il = key[0].start if isinstance(key[0], slice) else key[0]
-        min_xl = key[1].start if isinstance(key[1], slice) else key[1]
-        min_z = key[2].start if isinstance(key[2], slice) else key[2]
+        if any(stop <= start for start, stop in bounds):
+            # Empty selection: nothing to read
+            empty = np.zeros([max(0, stop - start) for start, stop in bounds], dtype=self.dtype)
+            return empty[tuple(post_index)]
 
-        min_il = 0 if min_il is None else min_il
-        min_xl = 0 if min_xl is None else min_xl
-        min_z = 0 if min_z is None else min_z
-
-        max_il = key[0].stop if isinstance(key[0], slice) else key[0] + 1
-        max_xl = key[1].stop if isinstance(key[1], slice) else key[1] + 1
-        max_z = key[2].stop if isinstance(key[2], slice) else key[2] + 1
-
-        max_il = self.sgz_reader.n_ilines if max_il is None else max_il
-        max_xl = self.sgz_reader.n_xlines if max_xl is None else max_xl
-        max_z = self.sgz_reader.n_samples if max_z is None else max_z
-
-        return self.sgz_reader.read_subvolume(min_il=min_il, max_il=max_il,
-                                              min_xl=min_xl, max_xl=max_xl,
-                                              min_z=min_z,   max_z=max_z)
+        (min_il, max_il), (min_xl, max_xl), (min_z, max_z) = bounds
+        # N.B. Steps larger than 1 still read and decompress the bounding box
+        subvolume = self.sgz_reader.read_subvolume(min_il=min_il, max_il=max_il,
+                                                   min_xl=min_xl, max_xl=max_xl,
+                                                   min_z=min_z,   max_z=max_z)
+        return subvolume[tuple(post_index)]
 
 
 class SeismicZfpBackendEntrypoint(BackendEntrypoint):
